@@ -488,6 +488,37 @@ def rule_g_all_tof_bins(ctx, pll_fns, dist_fns):
     return n
 
 
+def rule_h_report_loops_cover_the_ranges(ctx, fns):
+    """The balanced-subsets reports count what each subset processes.  A counting loop that starts at X.get_min_Y(..) runs up to and
+    including X.get_max_Y(..) of the same object and arguments (the view loop: in steps of the number of subsets) - a loop that stops
+    one short drops the last position from every count, and for data with a single position all counts are 0, i.e. `balanced` for any
+    number of subsets (F72, list-mode objective function)."""
+    from engine.loops import describe
+
+    RULE = "C06.h-report-loops-cover-the-ranges"
+    n = 0
+    seen = set()
+    for f in fns:
+        if f.short != "actual_subsets_are_approximately_balanced" or f.body is None or (f.file, f.body.line) in seen:
+            continue
+        seen.add((f.file, f.body.line))
+        for lp in f.walk():
+            if lp.k != "ForStmt":
+                continue
+            d = describe(lp, names=True)
+            if not d:
+                continue
+            m = re.fullmatch(r"(\(\+ )?(.*)\.get_min_(\w+)\((.*?)\)( \w+\))?", d["init"])
+            if not m:
+                continue
+            obj, what, args = m.group(2), m.group(3), m.group(4)
+            want = "%s.get_max_%s(%s)" % (obj, what, args)
+            ok = d["upper"] == want
+            ctx.ob(RULE, f.qn.split("<")[0], "loop:" + what, ok, lp.where(), "runs from get_min_%s to get_max_%s inclusive" % (what, what) if ok else "the loop over %s starts at get_min_%s but ends at `%s`, not at get_max_%s: the last position is never counted, and data with a single position give the count 0 for every subset (reported as balanced whatever the number of subsets)" % (what, what, d["upper"], what))
+            n += 1
+    return n
+
+
 def run(ctx):
     ctx.explanation = (
         "Decides: (a) the subset enumeration lists each is_basic (view,segment) of the residue class view = min_view+subset_num mod "
@@ -546,6 +577,11 @@ def run(ctx):
         return
     rule_g_all_tof_bins(ctx, gu[0].functions, gu[1].functions)
     ctx.require_count("C06.g-all-tof-bins", 5)
+    hreq = Request("src/recon_buildblock/PoissonLogLikelihoodWithLinearModelForMeanAndListModeDataWithProjMatrixByBin.cxx", fn=["stir::PoissonLogLikelihoodWithLinearModelForMeanAndListModeDataWithProjMatrixByBin::actual_subsets_are_approximately_balanced"])
+    hu = ctx.ex.get(hreq)
+    if hu is not None:
+        rule_h_report_loops_cover_the_ranges(ctx, sorted(list(hu.functions) + list(us[1].functions), key=lambda g: bool(g.is_dependent)))
+        ctx.require_count("C06.h-report-loops-cover-the-ranges", 6)
     ctx.require_count("C06.a-residue-class-enumeration", 3)
     ctx.require_count("C06.b-balanced-counts-what-is-processed", 1)
     ctx.require_count("C06.c-one-enumeration", 6)
